@@ -5,6 +5,7 @@
    independently; sampled stacks from the grammar). *)
 From Coq Require Import ZArith List Bool.
 From Covfie Require AlgebraCore.
+From Covfie Require Refine_NearestAt.
 From Covfie Require Import Layout Stack StackProofs PackLang Refine_Packs MatLang Refine_Algebra LinLang Refine_Linear.
 From Covfie.gen Require Import Gen_Packs Gen_Linear.
 Import ListNotations.
@@ -94,6 +95,11 @@ Theorem C02_linear_layer_is_the_source :
   (forall ops tc tidx tv vals q x0 x1 x2, code ops tc tidx tv vals q lin_branch_3 [x0; x1; x2] = model ops tc tidx tv vals q true [x0; x1; x2]) /\
   (forall ops tc tidx tv vals q x0 x1 x2 x3, code ops tc tidx tv vals q lin_branch_generic [x0; x1; x2; x3] = model ops tc tidx tv vals q false [x0; x1; x2; x3]).
 Proof. exact (conj branch_1_refines (conj branch_2_refines (conj branch_3_refines branch_generic_refines_4))). Qed.
+
+(* the nearest-neighbour layer: one query at the rounded coordinate (the model layer's, StackProofs.nearest_law) *)
+Theorem C02_nearest_layer_is_the_source : forall ops tc tidx tv vals q x0 x1 x2,
+  Refine_NearestAt.nn_query ops tc tidx tv vals q [x0; x1; x2] = Refine_NearestAt.nn_model ops tc tidx [x0; x1; x2].
+Proof. exact Refine_NearestAt.nearest_at_refines_3. Qed.
 
 Print Assumptions C02_eval_cons.
 Print Assumptions C02_linear_layer_is_the_source.
